@@ -667,12 +667,15 @@ def _consumer_sets():
         'queue2': lambda: [B.ReplQueue(2)],
         'pqueue2': lambda: [B.ReplPriorityQueue(2)],
         'queue+dict': lambda: [B.ReplQueue(2), B.ReplDict()],
+        'lock': lambda: [B._ReplLockManagerImpl(10.0)],     # the replicated half of ReplLockManager
         'all': lambda: [B.ReplCounter(), B.ReplList(), B.ReplDict(), B.ReplSet(), B.ReplQueue(2), B.ReplPriorityQueue(2)],
     }
 
 
 BATTERY_OPS = {
     'counter': [(0, 'inc', ()), (0, 'add', (2,)), (0, 'set', (0,))],
+    'lock': [(0, 'acquire', ('L', 'a', 100.0)), (0, 'acquire', ('L', 'b', 101.0)), (0, 'release', ('L', 'a')), (0, 'prolongate', ('a', 102.0)),
+             (0, 'acquire', ('M', 'b', 103.0))],
     'list': [(0, 'append', (1,)), (0, 'append', (0,)), (0, 'pop', ()), (0, 'remove', (1,)), (0, 'sort', ()), (0, 'insert', (0, 2))],
     'dict': [(0, 'set', ('a', 1)), (0, 'set', ('b', 0)), (0, 'pop', ('a',)), (0, 'setdefault', ('b', 2)), (0, 'clear', ())],
     'set': [(0, 'add', (1,)), (0, 'add', (2,)), (0, 'remove', (1,)), (0, 'discard', (2,)), (0, 'pop', ())],
